@@ -328,6 +328,99 @@ def exec_res(case):
     return res_
 
 
+# ================================================================== (a') capacity vectors with an 'any'-id instance
+def any_cap_strategy(tier):
+    """Workers in the repository's own tests are configured with an 'any'-id capacity instance (Resource(name, _id="any"): q).
+    Such an instance may stand next to other instances of its type; requests by 'any' then range over all of them.  Only the
+    aggregate ledger per type is modelled (the per-instance getters are ambiguous for a wildcard instance)."""
+    vec = st.lists(st.tuples(st.sampled_from(TYPES), st.sampled_from(["any", "any", "a", "b"]), st.integers(1, 3)), min_size=1, max_size=5)
+    op = st.one_of(
+        st.tuples(st.just("alloc"), st.integers(0, 3), st.sampled_from(TYPES), st.integers(1, 4)),
+        st.tuples(st.just("alloc"), st.integers(0, 3), st.sampled_from(TYPES), st.integers(1, 4)),
+        st.tuples(st.just("alloc_multi"), st.integers(0, 3), st.sampled_from(TYPES), st.integers(1, 4)),
+        st.tuples(st.just("dealloc"), st.integers(0, 3), st.just("-"), st.just(0)),
+        st.tuples(st.just("dealloc"), st.integers(0, 3), st.just("-"), st.just(0)),
+        st.tuples(st.just("copy"), st.just(0), st.just("-"), st.just(0)),
+    )
+    return st.tuples(vec, st.lists(op, min_size=3, max_size=24)).map(lambda t: {"vector": [list(x) for x in t[0]], "ops": _listify(t[1])})
+
+
+def exec_any_cap(case):
+    res_ = CaseResult()
+    V = res_.violations
+    vec, total = {}, {}
+    for t, rid, q in case["vector"]:
+        r = Resource(name=t, _id=rid)
+        if r in vec:
+            continue  # one instance per (type, id)
+        vec[r] = q
+        total[t] = total.get(t, 0) + q
+    obj = Resources(resource_vector=vec)
+    comps = [mk_task(i) for i in range(4)]
+    held = {}  # comp idx -> (type, qty)
+    refilled = False
+    released = False
+
+    def bad(clause, detail):
+        V.append(Violation(clause, f"{detail}; case={case}", f"resources.any_capacity.{clause}"))
+
+    def check(o, what):
+        for t in TYPES:
+            a = Resource(name=t, _id="any")
+            used = sum(q for tt, q in held.values() if tt == t)
+            got = (o.get_available_quantity(a), o.get_allocated_quantity(a), o.get_total_quantity(a))
+            exp = (total.get(t, 0) - used, used, total.get(t, 0))
+            if got != exp:
+                bad("aggregate", f"after {what}: type {t} (available, allocated, total) = {got}, expected {exp}")
+                return False
+        return True
+
+    try:
+        for op in case["ops"]:
+            kind, ci, t, q = op
+            if kind in ("alloc", "alloc_multi"):
+                if ci in held:
+                    continue
+                used = sum(qq for tt, qq in held.values() if tt == t)
+                exp = "ok" if q <= total.get(t, 0) - used else "ValueError"
+                try:
+                    if kind == "alloc":
+                        obj.allocate(Resource(name=t, _id="any"), comps[ci], q)
+                    else:
+                        obj.allocate_multiple(Resources({Resource(name=t, _id="any"): q}), comps[ci])
+                    out = "ok"
+                except ValueError:
+                    out = "ValueError"
+                if out != exp:
+                    bad("alloc_outcome", f"{kind}({t}:any x{q}) gave {out}, expected {exp} with {held} held of {total}")
+                    break
+                if out == "ok":
+                    held[ci] = (t, q)
+                    if released:
+                        refilled = True
+            elif kind == "dealloc":
+                if ci not in held:
+                    continue
+                obj.deallocate(comps[ci])
+                held.pop(ci)
+                released = True
+            elif kind == "copy":
+                if not check(copy(obj), "copy (the copy)"):
+                    break
+            if not check(obj, op):
+                break
+    except Exception as e:
+        import traceback
+
+        tb = traceback.extract_tb(e.__traceback__)
+        where = next((f"{f.filename.split('/')[-1]}:{f.name}" for f in reversed(tb) if "/verif/" not in f.filename), "?")
+        bad(f"raises.{type(e).__name__}.{where}", f"{type(e).__name__}: {e}")
+    mixed = any(sum(1 for (tt, _i, _q) in case["vector"] if tt == t) >= 2 and any(i == "any" for tt, i, _q in case["vector"] if tt == t) for t in TYPES)
+    res_.nontrivial = refilled
+    res_.classes = ["any_instance_next_to_others" if mixed else "plain_vector", "refilled_after_release" if refilled else "no_refill"]
+    return res_
+
+
 # ================================================================== (b) Worker
 def strat_specs():
     return st.lists(
@@ -867,6 +960,7 @@ def e2e_worlds(tier):
 
 CHECKS = [
     Check("resources_machine", case_timeout=60, timeout_is_violation=True, execute=exec_res, strategy=res_strategy, budget={"quick": 3000, "thorough": 120000}),
+    Check("any_capacity_ledger", case_timeout=60, timeout_is_violation=True, execute=exec_any_cap, strategy=any_cap_strategy, budget={"quick": 2000, "thorough": 60000}),
     Check("worker_machine", case_timeout=60, timeout_is_violation=True, execute=exec_worker, strategy=worker_strategy, budget={"quick": 3000, "thorough": 120000}),
     Check("pools_machine", case_timeout=60, timeout_is_violation=True, execute=exec_pools, strategy=pools_strategy, budget={"quick": 2000, "thorough": 80000}),
     Check("sim_ledger", sim_execute([J.judge_c04_e2e], lambda rec: rec.mon.idle_checks > 1 and rec.mon.ledger_ops > 2), strategy=e2e_worlds,
